@@ -773,6 +773,13 @@ func (cl *Client) EndTransaction(ctx context.Context, commit TransactionEndTry) 
 		}
 	}
 
+	// A topic purged mid-transaction took its addedToTxn marks with it;
+	// the broker-side transaction still needs to be ended.
+	purgedAdded := cl.producer.purgedAddedToTxn.Swap(false)
+	if purgedAdded {
+		anyAdded = true
+	}
+
 	// If no partition was added to a transaction, then we have nothing to commit.
 	//
 	// Note that anyAdded is true if the producer ID was failed, meaning we will
@@ -819,6 +826,9 @@ func (cl *Client) EndTransaction(ctx context.Context, commit TransactionEndTry) 
 			// failed producer ID.
 			for _, rb := range addedSwapped {
 				rb.addedToTxn.Store(true)
+			}
+			if purgedAdded {
+				cl.producer.purgedAddedToTxn.Store(true)
 			}
 			if offsetsWereAdded {
 				g.offsetsAddedToTxn = true
@@ -973,6 +983,9 @@ func (cl *Client) EndTransaction(ctx context.Context, commit TransactionEndTry) 
 		}
 		for _, rb := range addedSwapped {
 			rb.addedToTxn.Store(true)
+		}
+		if purgedAdded {
+			cl.producer.purgedAddedToTxn.Store(true)
 		}
 		if offsetsWereAdded {
 			g.offsetsAddedToTxn = true
